@@ -1,6 +1,49 @@
-"""C13 probe"""
-from . import kcrate
+"""C13 — floats are always finite (narrowed).  K-crate: the checked constructor for all 2^64 bit patterns, float natives
+(add, sub, mul, div, neg) through their real registration, int.to_float with num-bigint's to_f64 stubbed by contract.
+K-unit slice: float literals."""
+import os
+
+from . import core, kcrate, kunit
+
+OUT = [
+    "transcendental functions (sin, cos, exp, ln, gamma, erf, pow, sqrt...), statrs distributions and JSON numbers: CBMC has no model "
+    "of libm/statrs; they all return through the checked constructor, which is decided",
+    "float mod (frem) and is_close; prelude helpers written in the xray language",
+    "std's float parser is stubbed in the literal harness (any float or Err): the `1e999` class is confirmed by replay on the real compiler",
+]
 
 
 def run(chk):
-    return kcrate.run(chk, [("builtin__int.rs", "c14_p7")], out=[])
+    # float literals (slice of parser.rs)
+    crate = kunit.prepare(chk)
+    chk.assumptions += kunit.ASSUMPTIONS
+    if not crate.build():
+        raise core.Inconclusive("K-unit build failed:\n" + crate.build_log[-3000:])
+    tmo = 300 if chk.tier == "quick" else 1800
+    sl = crate.slices.get("number_any", {})
+
+    def replay(trace, labels):
+        src = "let x = 1e999;"
+        spec = dict(source=src, bindings=["x"])
+
+        def check(got):
+            v = got.get("values", {}).get("x", {})
+            if got.get("panic"):
+                return "compiler panicked on `%s`" % src
+            if v.get("finite") is False:
+                return "float literal `1e999` is %s" % v
+            return None
+        return dict(spec=spec, check=check)
+    if not chk.only or any("literal" in o for o in chk.only):
+        obs = core.run_harnesses(chk, crate, [dict(name="h::c12::c13_float_literal", timeout=tmo, info=dict(
+            functions_encoded="src/parser.rs `Rule::NUMBER_ANY` arm (slice sha256 %s)" % sl.get("sha256"), timeout=tmo,
+            bounds="literals <digit>e<3 digits>; float parser stubbed"))], logdir=os.path.join(core.CACHE, "logs", "C13"))
+        # known finding (1e999 -> inf): the label is confirmed on the real compiler before it is printed
+        nat_problem = replay({}, [])["check"](core.Native.get().run(dict(source="let x = 1e999;", bindings=["x"])))
+        for ob in obs:
+            if ob.verdict == "fail" and not nat_problem:
+                ob.verdict = "inconclusive"
+                ob.detail = "stub-dependent witness does not reproduce on the real compiler (1e999 is handled)"
+        core.triage(chk, crate, obs, {"c13_float_literal": replay},
+                    excl_factory=lambda cfgs: kunit.prepare(chk, rustflags=" ".join("--cfg " + c for c in cfgs)))
+    return kcrate.run(chk, [("xvalue.rs", "c13_"), ("builtin__floats.rs", "c13_"), ("builtin__int.rs", "c13_")], out=OUT)
